@@ -365,7 +365,7 @@ impl Prop for C18 {
 		"A scenario is (schema S1, value, presentation, up to four schemas with a different canonical form: a name / field name / field order / symbol count / fixed size / primitive type / union order changed). Enumerated per scenario: \
 		 the intact message (format: C3 01 ++ Schema::rabin_fingerprint() ++ exactly the to_datum bytes, which the reference datum decoder turns back into the value; on the plain schema subset the fingerprint equals the little-endian bytes of the simulator's own bit-by-bit CRC-64-AVRO of the canonical form) read from the slice and under reader plans Fixed(1..12), one cut at every header offset, BufReader capacities around 10, with a trailer that must stay unread; \
 		 truncation at EVERY length 0..len; EVERY header byte replaced by EVERY other value (2550 damages); the message read under each other schema; to_single_object against sinks with Interrupted / hard error / Ok(0) at EVERY call index (accept-all and Fixed(1)). \
-		 An evaluation is one encode or decode. Non-trivial = a fault was applied or a refill boundary fell inside the header; distinct = distinct (check kind, header byte index or truncation region, reader kind, outcome, schema shape class). One scenario in 150 is a LONG history: 250-1150 messages written through ONE serializer configuration (each must be marker ++ fingerprint ++ exactly the datum a fresh configuration writes), then read back slice by slice and one after the other from ONE source under five reader plans (values, and the bytes consumed in total). The intact message is also decoded under alternative-hint, partly ignoring (two masks), ignoring and blind targets on both input paths (what is kept, where the decoder stops, agreement of the two paths); every schema is parsed a second time from a spelling with a forward reference, which must give the same fingerprint and accept the same messages; messages above 2 KiB are cut at both ends, around the 8 / 16 / 64 KiB marks and at 150 seeded offsets instead of everywhere; one scenario in forty is deliberately large-scale."
+		 An evaluation is one encode or decode. Non-trivial = a fault was applied or a refill boundary fell inside the header; distinct = distinct (check kind, header byte index or truncation region, reader kind, outcome, schema shape class). Every schema is also reached by the road less travelled: parsed into the editable graph, its fingerprint asked for, one primitive leaf changed through nodes_mut(), frozen — the frozen schema's fingerprint must be that of its own JSON parsed afresh. One scenario in 150 is a LONG history: 250-1150 messages written through ONE serializer configuration (each must be marker ++ fingerprint ++ exactly the datum a fresh configuration writes), then read back slice by slice and one after the other from ONE source under five reader plans (values, and the bytes consumed in total). The intact message is also decoded under alternative-hint, partly ignoring (two masks), ignoring and blind targets on both input paths (what is kept, where the decoder stops, agreement of the two paths); every schema is parsed a second time from a spelling with a forward reference, which must give the same fingerprint and accept the same messages; messages above 2 KiB are cut at both ends, around the 8 / 16 / 64 KiB marks and at 150 seeded offsets instead of everywhere; one scenario in forty is deliberately large-scale."
 	}
 	fn assumptions(&self) -> Vec<String> {
 		vec![
@@ -445,6 +445,52 @@ impl Prop for C18 {
 		if let Checks::LongStream { seed, n, pattern } = &scn.checks {
 			self.exec_long(scn, &env, &schema, *seed, *n, *pattern, &mut out);
 			return out;
+		}
+		// ---- the road less travelled to a Schema: parse into the editable graph, ASK FOR ITS FINGERPRINT, edit one
+		// leaf through nodes_mut() (a primitive becomes another primitive), freeze. Whatever the frozen schema says its
+		// fingerprint is must be the fingerprint of what it says its JSON is (parsed afresh): the fingerprint is a
+		// function of the schema, not of the history of the graph it was frozen from.
+		{
+			use serde_avro_fast::schema::{RegularType, SchemaMut};
+			let json = ast::to_json(&scn.schema);
+			if let Ok(mut sm) = json.parse::<SchemaMut>() {
+				let before = sm.canonical_form_rabin_fingerprint().ok();
+				let pick = json.len() % 5;
+				let mut edited = false;
+				for node in sm.nodes_mut().iter_mut() {
+					if node.logical_type.is_some() {
+						continue;
+					}
+					let new = match (&node.type_, pick) {
+						(RegularType::Int, _) => Some(RegularType::String),
+						(RegularType::Long, _) => Some(RegularType::Bytes),
+						(RegularType::String, _) => Some(RegularType::Long),
+						(RegularType::Boolean, _) => Some(RegularType::Double),
+						(RegularType::Double, _) => Some(RegularType::Float),
+						_ => None,
+					};
+					if let Some(t) = new {
+						node.type_ = t;
+						edited = true;
+						break;
+					}
+				}
+				if edited {
+					out.evals += 1;
+					if let Ok(frozen) = sm.freeze() {
+						out.count("schema_frozen_from_a_graph_edited_after_its_fingerprint_was_asked_for", 1);
+						match frozen.json().parse::<serde_avro_fast::Schema>() {
+							Ok(fresh) => {
+								if fresh.rabin_fingerprint() != frozen.rabin_fingerprint() {
+									out.fail("C18:format:fingerprint-of-an-edited-graph-is-not-that-of-its-schema", format!("frozen after an edit: fingerprint {:02x?}; the same JSON parsed afresh: {:02x?}; before the edit: {before:02x?}; schema now {}", frozen.rabin_fingerprint(), fresh.rabin_fingerprint(), frozen.json()));
+									return out;
+								}
+							}
+							Err(_) => out.count("edited_graph_json_does_not_reparse", 1),
+						}
+					}
+				}
+			}
 		}
 		let limits = Limits::sim_default();
 		let mk_config = |s| {
